@@ -117,4 +117,15 @@ PROPS = {
         'must_observe': ['nesting_sweep_points', 'length_sweep_points', 'accepted', 'rejected'],
         'case_budget_ms': 20000,
     },
+    'C12': {
+        'level': 'fault_enumeration',
+        'technique': 'fault injection with known coordinates + span checker: one fault of a known byte range is injected into a known template of a valid multi-template set; every datum of the error is recomputed from the source',
+        'claim': '55 fault kinds (26 render-time, 16 syntax, 5 add-time references, 8 unterminated constructs) x 7 placements (entry top level, block of parent, block of child with super(), included, component body, '
+                 'included of included, component called from an included template) x random multi-byte/CRLF/blank-line filler before and after, in both registration orders. Checked: template name, span inside the source on '
+                 'character boundaries, line/column = position of the byte range, span touches the offending token and stays inside the faulty construct, Display succeeds with `--> name:line:col` and the quoted line, '
+                 'one call-site note per call site naming the calling templates in order.',
+        'note': 'the per-fault token table is kept by hand and calibrated on the pinned tree (every fault kind yields a located error there); a zero-width span on the first byte of the offending token counts as touching it; resource-limit errors (un-located Msg) are outside this property',
+        'rule': "one evaluation = one injected fault; a cell = (fault class, fault kind, placement, line class [first/later line, multi-byte text before the fault on its line, column 0])",
+        'must_observe': ['spans_checked_with_coordinates', 'build_reports_checked', 'display_calls'],
+    },
 }
